@@ -169,6 +169,28 @@ def random_script(rnd, ntasks=3, peers=(1000,), horizon=14, maxsims=(0, 0, 1, 2)
     return cmds, metas
 
 
+def chk_history_all(rnd, nusers=17):
+    """two waves of changes by 17 users, each followed by a checkpoint: both checkpoints take the all-users path; in the second
+    wave some users cancel the only task they have"""
+    cmds, metas = [], {}
+    FAR = 5000
+    users = [2000 + i for i in range(nusers)]
+    def put(items, p, method='PUBLISH'):
+        metas[len(cmds)] = items; cmds.append(areq(rnd, p, request(items, method)))
+    for u in users:
+        put([{'kind': 'add', 'uid': 'own%d' % u, 'occ': [FAR + rnd.randint(0, 50)], 'maxsim': 0, 'peer': u}], u)
+    cmds.append('K')
+    w2 = list(users); rnd.shuffle(w2)
+    for u in w2:
+        if rnd.random() < 0.25: put([{'kind': 'cancel', 'uid': 'own%d' % u, 'peer': u}], u, 'CANCEL')
+        else: put([{'kind': 'add', 'uid': 'more%d' % u, 'occ': [FAR + rnd.randint(0, 50)], 'maxsim': 0, 'peer': u}], u)
+    cmds.append('K')
+    for _ in range(rnd.randint(0, 2)):
+        u = rnd.choice(users); put([{'kind': 'add', 'uid': 'late%d' % u, 'occ': [FAR + 7], 'maxsim': 0, 'peer': u}], u)
+    cmds.append('S')
+    return cmds, metas
+
+
 def allday_script(rnd, ntasks=3, peers=(1000,)):
     """tasks whose occurrences are plain dates (DTSTART;VALUE=DATE): due at 00:00:00 UTC of their date; the clock moves in
     hours and days, across and exactly onto the midnights"""
